@@ -9,7 +9,7 @@ On break: harness `oracle` evaluates the property's clauses directly on the real
 import os
 
 THEOREMS = ["IstioModel.C04.Theorems", "IstioModel.C04.ProtocolTheorems", "IstioModel.C04.DeltaTraceTheorems",
-            "IstioModel.C04.ProcessTheorems", "IstioModel.C04.RecvTheorems"]
+            "IstioModel.C04.ProcessTheorems", "IstioModel.C04.RecvTheorems", "IstioModel.C04.DeltaProtocolTheorems"]
 
 
 def oracle(ctx, stream, case_lines, rep):
@@ -91,11 +91,18 @@ def run(ctx):
     # forceEDSPush / pushConnectionDelta on a recording stream with recording generators
     ctx.diff_stream("proc", ctx.n(1200, 30000), oracle=oracle)
     ctx.diff_stream("dproc", ctx.n(1200, 30000), oracle=oracle)
+    # delta closed loop: real shouldRespondDelta / sendDelta composed with the conformant delta client of DeltaProtocol.lean
+    # (pending subscription changes attached to ACKs / NACKs, pushes overtaking ACKs)
+    ctx.diff_stream("dloop", ctx.n(600, 15000), oracle=oracle)
+    # exhaustive single-step enumeration: every (state class x request class) over a tiny universe; SotW complete in
+    # both tiers, delta reduced in the quick tier and complete in the thorough tier (the harness reads VERIF_TIER)
+    ctx.diff_stream("enum", 10 ** 9, oracle=oracle)
+    ctx.diff_stream("denum", 10 ** 9, oracle=oracle)
     # the receive side: malformed first requests through the real xds.Receive / receiveDelta on a real DiscoveryServer,
     # every forwarded request then through the real processRequest / processDeltaRequest (crash freedom)
     ctx.diff_stream("recv", ctx.n(600, 6000), oracle=oracle)
     # the oracle also runs on every generated case (second line, independent of the model)
-    for stream in ("sotw", "delta", "warm", "loop", "proc", "dproc", "recv"):
+    for stream in ("sotw", "delta", "warm", "loop", "proc", "dproc", "recv", "dloop", "enum", "denum"):
         g = os.path.join(ctx.work, "%s.gen.ops" % stream)
         if os.path.exists(g):
             out = g + ".verdict"
